@@ -428,3 +428,281 @@ Proof.
   match goal with |- context [if ?g =? -1 then _ else _] => destruct (g =? -1) eqn:Eg end;
     eexists; (split; [reflexivity|apply Hout]).
 Qed.
+
+(* ------------------------------------------------------------------ *)
+(* accepted residues and floors: every book they name exists and is of *)
+(* the kind the decoder will use it as                                  *)
+(* ------------------------------------------------------------------ *)
+Definition value_book_ok (books : list book) (b : Z) : Prop :=
+  0 <= b < nbooks books /\ b_maptype (bk books b) <> 0 /\ 1 <= b_dim (bk books b).
+
+Lemma rd_list_range : forall n w bs l r, rd_list n w bs = Some (l, r) -> Forall (fun v => 0 <= v < 2 ^ Z.of_nat w) l.
+Proof.
+  induction n as [|k IH]; intros w bs l r H; cbn [rd_list] in H.
+  - inversion H; constructor.
+  - destruct (rd w bs) as [[v r1]|] eqn:E; [|discriminate].
+    destruct (rd_list k w r1) as [[l1 r2]|] eqn:E2; [|discriminate].
+    inversion H; subst. constructor; [apply rd_range in E; tauto|eapply IH; exact E2].
+Qed.
+
+Lemma rd_cascade_wf : forall n bs l r, rd_cascade n bs = Some (l, r) -> length l = n /\ Forall (fun c => 0 <= c < 256) l.
+Proof.
+  induction n as [|k IH]; intros bs l r H; cbn [rd_cascade] in H.
+  - inversion H; split; [reflexivity|constructor].
+  - destruct (rd 3 bs) as [[c r1]|] eqn:E1; [|discriminate].
+    destruct (rd 1 r1) as [[f r2]|] eqn:E2; [|discriminate].
+    destruct (if f =? 1 then match rd 5 r2 with Some (c5, r0) => Some (c + c5 * 8, r0) | None => None end else Some (c, r2)) as [[cc r3]|] eqn:E3; [|discriminate].
+    destruct (rd_cascade k r3) as [[l1 r4]|] eqn:E4; [|discriminate].
+    inversion H; subst. apply IH in E4. destruct E4 as [L F]. apply rd_range in E1.
+    change (2 ^ Z.of_nat 3) with 8 in E1.
+    split; [cbn; f_equal; exact L|]. constructor; [|exact F].
+    destruct (f =? 1).
+    + destruct (rd 5 r2) as [[c5 r0]|] eqn:E5; [|discriminate]. inversion E3; subst. apply rd_range in E5. change (2 ^ Z.of_nat 5) with 32 in E5. lia.
+    + inversion E3; subst. lia.
+Qed.
+
+Lemma partvals_fuel_bound : forall fuel dim partitions entries acc pv,
+  partvals_fuel fuel dim partitions entries acc = Some pv -> 1 <= dim -> pv <= entries.
+Proof.
+  induction fuel as [|f IH]; intros dim partitions entries acc pv H Hd; cbn [partvals_fuel] in H; [discriminate|].
+  destruct (dim <=? 0) eqn:E0; [lia|].
+  destruct (acc * partitions >? entries) eqn:E; [discriminate|].
+  destruct (Z.eq_dec dim 1) as [->|Hne].
+  - destruct f as [|f']; cbn [partvals_fuel] in H; [discriminate|]. cbn in H. inversion H; subst. lia.
+  - eapply IH; [exact H|lia].
+Qed.
+Lemma partvals_fuel_pos : forall fuel dim p e acc x, 1 <= acc -> 1 <= p -> partvals_fuel fuel dim p e acc = Some x -> 1 <= x.
+Proof.
+  induction fuel as [|f IH]; intros dim p e acc x Ha Hp H; cbn [partvals_fuel] in H; [discriminate|].
+  destruct (dim <=? 0); [inversion H; lia|]. destruct (acc * p >? e); [discriminate|].
+  eapply (IH _ _ _ (acc * p)); [nia|exact Hp|exact H].
+Qed.
+
+Definition residue_wf (books : list book) (r : residue) : Prop :=
+  0 <= r_type r /\ 0 <= r_begin r /\ 0 <= r_end r /\ 1 <= r_grouping r /\ 1 <= r_partitions r <= 64 /\
+  0 <= r_groupbook r < nbooks books /\ 1 <= b_dim (bk books (r_groupbook r)) /\
+  length (r_secondstages r) = Z.to_nat (r_partitions r) /\ Forall (fun c => 0 <= c < 256) (r_secondstages r) /\
+  Forall (value_book_ok books) (r_booklist r) /\
+  1 <= r_partvals r <= b_entries (bk books (r_groupbook r)).
+
+Lemma unpack_residue_wf rtype books bs r rest : 0 <= rtype ->
+  unpack_residue rtype books bs = Some (r, rest) -> residue_wf books r.
+Proof.
+  intros Ht. unfold unpack_residue. intros H.
+  destruct (rd 24 bs) as [[begin r1]|] eqn:E1; [|discriminate].
+  destruct (rd 24 r1) as [[end_ r2]|] eqn:E2; [|discriminate].
+  destruct (rd 24 r2) as [[grouping r3]|] eqn:E3; [|discriminate].
+  destruct (rd 6 r3) as [[parts r4]|] eqn:E4; [|discriminate].
+  destruct (rd 8 r4) as [[groupbook r5]|] eqn:E5; [|discriminate].
+  destruct (rd_cascade (Z.to_nat (parts + 1)) r5) as [[casc r6]|] eqn:E6; [|discriminate].
+  destruct (rd_list _ 8 r6) as [[bl r7]|] eqn:E7; [|discriminate].
+  destruct (groupbook >=? nbooks books) eqn:Eg; [discriminate|].
+  destruct (existsb _ bl) eqn:Ex; [discriminate|].
+  destruct (b_dim (bk books groupbook) <? 1) eqn:Ed; [discriminate|].
+  apply rd_range in E1, E2, E3, E4, E5. change (2 ^ Z.of_nat 6) with 64 in E4.
+  apply rd_cascade_wf in E6. destruct E6 as [Lc Fc].
+  pose proof (rd_list_range _ _ _ _ _ E7) as Fb.
+  assert (Forall (value_book_ok books) bl) as Hbl.
+  { apply Forall_forall. intros b Hb. rewrite Forall_forall in Fb. specialize (Fb b Hb).
+    assert ((b >=? nbooks books) || (b_maptype (bk books b) =? 0) || (b_dim (bk books b) <? 1) = false) as Hf.
+    { destruct ((b >=? nbooks books) || (b_maptype (bk books b) =? 0) || (b_dim (bk books b) <? 1)) eqn:E; [|reflexivity].
+      exfalso. assert (existsb (fun b0 => (b0 >=? nbooks books) || (b_maptype (bk books b0) =? 0) || (b_dim (bk books b0) <? 1)) bl = true) as Hx
+        by (apply existsb_exists; exists b; split; [exact Hb|exact E]). congruence. }
+    unfold value_book_ok. lia. }
+  destruct (if parts + 1 =? 1 then Some 1 else partvals_fuel 30 (b_dim (bk books groupbook)) (parts + 1) (b_entries (bk books groupbook)) 1) as [pv|] eqn:Ep; [|discriminate].
+  destruct ((parts + 1 =? 1) && (1 >? b_entries (bk books groupbook))) eqn:E1e; [discriminate|].
+  inversion H; subst. unfold residue_wf. cbn.
+  assert (1 <= pv <= b_entries (bk books groupbook)) as Hpv.
+  { destruct (parts + 1 =? 1) eqn:Epp.
+    - inversion Ep; subst. lia.
+    - split; [eapply (partvals_fuel_pos _ _ (parts + 1) _ 1); [lia|lia|exact Ep]|eapply partvals_fuel_bound; [exact Ep|lia]]. }
+  repeat split; try lia; try assumption.
+Qed.
+
+Lemma rd_floor0_books_wf : forall n books bs l r, rd_floor0_books n books bs = Some (l, r) ->
+  length l = n /\ Forall (value_book_ok books) l.
+Proof.
+  induction n as [|k IH]; intros books bs l r H; cbn [rd_floor0_books] in H.
+  - inversion H; split; [reflexivity|constructor].
+  - destruct (rd 8 bs) as [[b r1]|] eqn:E1; [|discriminate].
+    destruct ((b >=? nbooks books) || (b_maptype (bk books b) =? 0) || (b_dim (bk books b) <? 1)) eqn:Ec; [discriminate|].
+    destruct (rd_floor0_books k books r1) as [[l1 r2]|] eqn:E2; [|discriminate].
+    inversion H; subst. apply IH in E2. destruct E2 as [L F]. apply rd_range in E1.
+    split; [cbn; f_equal; exact L|constructor; [unfold value_book_ok; lia|exact F]].
+Qed.
+
+Lemma rd_subbooks_wf : forall n nb bs l r, rd_subbooks n nb bs = Some (l, r) -> length l = n /\ Forall (fun b => -1 <= b < nb) l.
+Proof.
+  induction n as [|k IH]; intros nb bs l r H; cbn [rd_subbooks] in H.
+  - inversion H; split; [reflexivity|constructor].
+  - destruct (rd 8 bs) as [[v r1]|] eqn:E1; [|discriminate].
+    destruct (v - 1 >=? nb) eqn:Ec; [discriminate|].
+    destruct (rd_subbooks k nb r1) as [[l1 r2]|] eqn:E2; [|discriminate].
+    inversion H; subst. apply IH in E2. destruct E2 as [L F]. apply rd_range in E1.
+    split; [cbn; f_equal; exact L|constructor; [lia|exact F]].
+Qed.
+
+Definition class_wf (nb : Z) (c : fclass) : Prop :=
+  1 <= c_dim c <= 8 /\ 0 <= c_subs c <= 3 /\ 0 <= c_book c < nb /\
+  length (c_subbook c) = Z.to_nat (2 ^ c_subs c) /\ Forall (fun b => -1 <= b < nb) (c_subbook c).
+
+Lemma rd_classes_wf : forall n nb bs l r, 0 < nb -> rd_classes n nb bs = Some (l, r) -> length l = n /\ Forall (class_wf nb) l.
+Proof.
+  induction n as [|k IH]; intros nb bs l r Hnb H; cbn [rd_classes] in H.
+  - inversion H; split; [reflexivity|constructor].
+  - destruct (rd 3 bs) as [[d r1]|] eqn:E1; [|discriminate].
+    destruct (rd 2 r1) as [[subs r2]|] eqn:E2; [|discriminate].
+    destruct (if subs =? 0 then Some (0, r2) else rd 8 r2) as [[cb r3]|] eqn:E3; [|discriminate].
+    destruct (cb >=? nb) eqn:Ec; [discriminate|].
+    destruct (rd_subbooks (Z.to_nat (2 ^ subs)) nb r3) as [[sb r4]|] eqn:E4; [|discriminate].
+    destruct (rd_classes k nb r4) as [[l1 r5]|] eqn:E5; [|discriminate].
+    inversion H; subst. apply IH in E5; [|exact Hnb]. destruct E5 as [L F].
+    apply rd_range in E1, E2. change (2 ^ Z.of_nat 3) with 8 in E1. change (2 ^ Z.of_nat 2) with 4 in E2.
+    apply rd_subbooks_wf in E4. destruct E4 as [Ls Fs].
+    assert (0 <= cb) as Hcb by (destruct (subs =? 0); [inversion E3; lia|apply rd_range in E3; lia]).
+    split; [cbn; f_equal; exact L|]. constructor; [|exact F].
+    unfold class_wf. cbn. repeat split; try lia; assumption.
+Qed.
+
+(* every floor of an accepted set-up is well formed *)
+Definition floor_wf (books : list book) (f : Setup.floor) : Prop :=
+  match f with
+  | Floor0 order rate barkmap ampbits ampdB bl =>
+      1 <= order <= 255 /\ 1 <= rate /\ 1 <= barkmap /\ 0 <= ampbits < 64 /\ 0 <= ampdB < 256 /\
+      (1 <= length bl <= 16)%nat /\ Forall (value_book_ok books) bl
+  | Floor1 pc classes mult rangebits posts =>
+      Forall (fun c => 0 <= c < Z.of_nat (length classes)) pc /\ Forall (class_wf (nbooks books)) classes /\
+      1 <= mult <= 4 /\ 0 <= rangebits < 16 /\ Z.of_nat (length posts) <= VIF_POSIT /\
+      Forall (fun x => 0 <= x < 2 ^ rangebits) posts /\ nodupb (0 :: 2 ^ rangebits :: posts) = true
+  end.
+
+Lemma zmax_list_ge : forall l acc x, In x l -> x <= zmax_list l acc.
+Proof.
+  induction l as [|y r IH]; intros acc x Hin; [destruct Hin|]. cbn [zmax_list].
+  destruct Hin as [->|Hin]; [|apply IH; exact Hin].
+  assert (forall l a, a <= zmax_list l a) as Hmono by (induction l as [|z t IHt]; intros a; cbn; [lia|specialize (IHt (Z.max a z)); lia]).
+  specialize (Hmono r (Z.max acc x)). lia.
+Qed.
+
+Lemma rd_posts_range : forall pc classes rb count bs posts r,
+  rd_posts pc classes rb count bs = Some (posts, r) -> Forall (fun x => 0 <= x < 2 ^ Z.of_nat rb) posts.
+Proof.
+  induction pc as [|c rest IH]; intros classes rb count bs posts r H; cbn [rd_posts] in H.
+  - inversion H; constructor.
+  - destruct (count + c_dim (cls classes c) >? VIF_POSIT); [discriminate|].
+    destruct (rd_list _ rb bs) as [[l r1]|] eqn:E1; [|discriminate].
+    destruct (rd_posts rest classes rb _ r1) as [[l2 r2]|] eqn:E2; [|discriminate].
+    inversion H; subst. apply Forall_app. split; [eapply rd_list_range; exact E1|eapply IH; exact E2].
+Qed.
+
+Lemma unpack_floor1_wf books bs f r : 0 < nbooks books -> unpack_floor1 books bs = Some (f, r) -> floor_wf books f.
+Proof.
+  intros Hnb. unfold unpack_floor1. intros H.
+  destruct (rd 5 bs) as [[parts r1]|] eqn:E1; [|discriminate].
+  destruct (rd_list (Z.to_nat parts) 4 r1) as [[pc r2]|] eqn:E2; [|discriminate].
+  destruct (rd_classes _ (nbooks books) r2) as [[classes r3]|] eqn:E3; [|discriminate].
+  destruct (rd 2 r3) as [[mult r4]|] eqn:E4; [|discriminate].
+  destruct (rd 4 r4) as [[rangebits r5]|] eqn:E5; [|discriminate].
+  destruct (rd_posts pc classes (Z.to_nat rangebits) 0 r5) as [[posts r6]|] eqn:E6; [|discriminate].
+  destruct (nodupb (0 :: 2 ^ rangebits :: posts)) eqn:En; [|discriminate].
+  inversion H; subst. cbn [floor_wf].
+  pose proof (rd_list_range _ _ _ _ _ E2) as Fpc. change (2 ^ Z.of_nat 4) with 16 in Fpc.
+  apply rd_classes_wf in E3; [|exact Hnb]. destruct E3 as [Lc Fc].
+  apply rd_range in E4, E5. change (2 ^ Z.of_nat 2) with 4 in E4. change (2 ^ Z.of_nat 4) with 16 in E5.
+  assert (forall c, 0 <= c_dim (cls classes c)) as Hdim.
+  { intros c. unfold cls. destruct (Nat.ltb (Z.to_nat c) (length classes)) eqn:El.
+    - apply Nat.ltb_lt in El. rewrite Forall_forall in Fc. specialize (Fc _ (nth_In classes {| c_dim := 0; c_subs := 0; c_book := 0; c_subbook := [] |} El)).
+      unfold class_wf in Fc. lia.
+    - apply Nat.ltb_ge in El. rewrite nth_overflow by exact El. cbn. lia. }
+  pose proof (rd_posts_range _ _ _ _ _ _ _ E6) as Fp. rewrite Z2Nat.id in Fp by lia.
+  apply rd_posts_count in E6; [|exact Hdim|unfold VIF_POSIT; lia].
+  repeat split; try lia; try assumption.
+  apply Forall_forall. intros c Hc. rewrite Forall_forall in Fpc. specialize (Fpc c Hc).
+  pose proof (zmax_list_ge pc (-1) c Hc). lia.
+Qed.
+
+Lemma unpack_floor0_wf books bs f r : unpack_floor0 books bs = Some (f, r) -> floor_wf books f.
+Proof.
+  unfold unpack_floor0. intros H.
+  destruct (rd 8 bs) as [[order r1]|] eqn:E1; [|discriminate].
+  destruct (rd 16 r1) as [[rate r2]|] eqn:E2; [|discriminate].
+  destruct (rd 16 r2) as [[barkmap r3]|] eqn:E3; [|discriminate].
+  destruct (rd 6 r3) as [[ampbits r4]|] eqn:E4; [|discriminate].
+  destruct (rd 8 r4) as [[ampdB r5]|] eqn:E5; [|discriminate].
+  destruct (rd 4 r5) as [[nb r6]|] eqn:E6; [|discriminate].
+  destruct ((order <? 1) || (rate <? 1) || (barkmap <? 1)) eqn:Ec; [discriminate|].
+  destruct (rd_floor0_books (Z.to_nat (nb + 1)) books r6) as [[bl r7]|] eqn:E7; [|discriminate].
+  inversion H; subst. cbn [floor_wf].
+  apply rd_range in E1, E4, E5, E6. change (2 ^ Z.of_nat 8) with 256 in *. change (2 ^ Z.of_nat 6) with 64 in E4. change (2 ^ Z.of_nat 4) with 16 in E6.
+  apply rd_floor0_books_wf in E7. destruct E7 as [L F].
+  repeat split; try lia; assumption.
+Qed.
+
+Lemma rd_books_length : forall n bs l r, rd_books n bs = Some (l, r) -> length l = n.
+Proof.
+  induction n as [|k IH]; intros bs l r H; cbn [rd_books] in H; [inversion H; reflexivity|].
+  destruct (unpack_book bs) as [[b r1]|]; [|discriminate].
+  destruct (rd_books k r1) as [[l1 r2]|] eqn:E; [|discriminate]. inversion H; subst. cbn. f_equal. eapply IH; exact E.
+Qed.
+Lemma rd_floors_wf : forall n books bs l r, 0 < nbooks books -> rd_floors n books bs = Some (l, r) -> length l = n /\ Forall (floor_wf books) l.
+Proof.
+  induction n as [|k IH]; intros books bs l r Hnb H; cbn [rd_floors] in H; [inversion H; split; [reflexivity|constructor]|].
+  destruct (rd 16 bs) as [[t r0]|]; [|discriminate]. destruct (t >=? VI_FLOORB); [discriminate|].
+  destruct (if t =? 0 then unpack_floor0 books r0 else unpack_floor1 books r0) as [[f r1]|] eqn:Ef; [|discriminate].
+  destruct (rd_floors k books r1) as [[l1 r2]|] eqn:E; [|discriminate]. inversion H; subst.
+  apply IH in E; [|exact Hnb]. destruct E as [L F]. split; [cbn; f_equal; exact L|constructor; [|exact F]].
+  destruct (t =? 0); [eapply unpack_floor0_wf; exact Ef|eapply unpack_floor1_wf; [exact Hnb|exact Ef]].
+Qed.
+Lemma rd_residues_wf : forall n books bs l r, rd_residues n books bs = Some (l, r) -> length l = n /\ Forall (residue_wf books) l.
+Proof.
+  induction n as [|k IH]; intros books bs l r H; cbn [rd_residues] in H; [inversion H; split; [reflexivity|constructor]|].
+  destruct (rd 16 bs) as [[t r0]|] eqn:Et; [|discriminate]. destruct (t >=? VI_RESB); [discriminate|].
+  destruct (unpack_residue t books r0) as [[x r1]|] eqn:Ex; [|discriminate].
+  destruct (rd_residues k books r1) as [[l1 r2]|] eqn:E; [|discriminate]. inversion H; subst.
+  apply IH in E. destruct E as [L F]. apply rd_range in Et.
+  split; [cbn; f_equal; exact L|constructor; [eapply unpack_residue_wf; [|exact Ex]; lia|exact F]].
+Qed.
+Lemma rd_maps_wf : forall n ch fl rs bs l r, rd_maps n ch fl rs bs = Some (l, r) -> length l = n /\ Forall (mapping_wf ch fl rs) l.
+Proof.
+  induction n as [|k IH]; intros ch fl rs bs l r H; cbn [rd_maps] in H; [inversion H; split; [reflexivity|constructor]|].
+  destruct (rd 16 bs) as [[t r0]|]; [|discriminate]. destruct (t >=? VI_MAPB); [discriminate|].
+  destruct (unpack_mapping ch fl rs r0) as [[x r1]|] eqn:Ex; [|discriminate].
+  destruct (rd_maps k ch fl rs r1) as [[l1 r2]|] eqn:E; [|discriminate]. inversion H; subst.
+  apply IH in E. destruct E as [L F]. apply unpack_mapping_wf in Ex.
+  split; [cbn; f_equal; exact L|constructor; [tauto|exact F]].
+Qed.
+
+(* the accepted set-up as a whole: 1..256 books, 1..64 floors/residues/maps/modes,
+   every cross reference valid *)
+Definition setup_wf (channels : Z) (s : setup) : Prop :=
+  (1 <= length (s_books s) <= 256)%nat /\
+  (1 <= length (s_floors s) <= 64)%nat /\ Forall (floor_wf (s_books s)) (s_floors s) /\
+  (1 <= length (s_residues s) <= 64)%nat /\ Forall (residue_wf (s_books s)) (s_residues s) /\
+  (1 <= length (s_maps s) <= 64)%nat /\
+  Forall (mapping_wf channels (Z.of_nat (length (s_floors s))) (Z.of_nat (length (s_residues s)))) (s_maps s) /\
+  (1 <= length (s_modes s) <= 64)%nat /\
+  Forall (fun m => 0 <= md_mapping m < Z.of_nat (length (s_maps s)) /\ (md_blockflag m = 0 \/ md_blockflag m = 1)) (s_modes s).
+
+Theorem unpack_setup_wf channels bs s : unpack_setup channels bs = Some s -> setup_wf channels s.
+Proof.
+  unfold unpack_setup. intros H.
+  destruct (rd 8 bs) as [[nb r1]|] eqn:E1; [|discriminate].
+  destruct (rd_books (Z.to_nat (nb + 1)) r1) as [[books r2]|] eqn:E2; [|discriminate].
+  destruct (rd 6 r2) as [[nt r3]|]; [|discriminate].
+  destruct (rd_times _ r3) as [[u r4]|]; [|discriminate].
+  destruct (rd 6 r4) as [[nf r5]|] eqn:E5; [|discriminate].
+  destruct (rd_floors (Z.to_nat (nf + 1)) books r5) as [[floors r6]|] eqn:E6; [|discriminate].
+  destruct (rd 6 r6) as [[nr r7]|] eqn:E7; [|discriminate].
+  destruct (rd_residues (Z.to_nat (nr + 1)) books r7) as [[residues r8]|] eqn:E8; [|discriminate].
+  destruct (rd 6 r8) as [[nm r9]|] eqn:E9; [|discriminate].
+  destruct (rd_maps (Z.to_nat (nm + 1)) channels _ _ r9) as [[maps r10]|] eqn:E10; [|discriminate].
+  destruct (rd 6 r10) as [[nmo r11]|] eqn:E11; [|discriminate].
+  destruct (rd_modes (Z.to_nat (nmo + 1)) _ r11) as [[modes r12]|] eqn:E12; [|discriminate].
+  destruct (rd 1 r12) as [[fr r13]|]; [|discriminate].
+  destruct (fr =? 1); [|discriminate]. inversion H; subst. clear H.
+  apply rd_range in E1, E5, E7, E9, E11. change (2 ^ Z.of_nat 8) with 256 in E1. change (2 ^ Z.of_nat 6) with 64 in *.
+  apply rd_books_length in E2.
+  assert (0 < nbooks books) as Hnb by (unfold nbooks; lia).
+  apply rd_floors_wf in E6; [|exact Hnb]. apply rd_residues_wf in E8. apply rd_maps_wf in E10. apply rd_modes_wf in E12.
+  unfold setup_wf. cbn. repeat split; try lia; tauto.
+Qed.
